@@ -331,3 +331,25 @@ MUTANTS += [
                 out_messages.push((request_sender_meta.into(), OutMessage::ErrorResponse(ErrorResponse { action: Some(ErrorResponseAction::Announce), info_hash: Some(request.info_hash), failure_reason: "peer id in use".into() })));
                 return;""")]),
 ]
+
+WP = "crates/ws_protocol/src/"
+MUTANTS += [
+ dict(id="C15-remove-exhaustion-test", props=["C15"], expect={"C15": r"decode20#exhaustion_tested"},
+      edits=[(WP+"common.rs", """        if char_iter.next().is_some() {
+            return Err(E::custom(format!("not 20 bytes: {:#?}", value)));
+        }
+
+        Ok(arr)""", """        Ok(arr)""")]),
+ dict(id="C15-range-check-dropped", props=["C15"], expect={"C15": r"decode20#range_checked"},
+      edits=[(WP+"common.rs", "                if c as u32 > 255 {", "                if c as u32 > 255 && value.len() > 40 {")]),
+ dict(id="C15-error-response-before-scrape-and-lenient", props=["C15"], expect={"C15": r"untagged#OutMessage#ErrorResponse<ScrapeResponse"},
+      edits=[(WP+"outgoing/mod.rs", "    ScrapeResponse(ScrapeResponse),\n    ErrorResponse(ErrorResponse),\n}", "    ErrorResponse(ErrorResponse),\n    ScrapeResponse(ScrapeResponse),\n}"),
+             (WP+"outgoing/error.rs", "    #[serde(rename = \"failure reason\")]", "    #[serde(rename = \"failure reason\", default)]")]),
+ dict(id="C15-scrape-request-first", props=["C15"], expect={"C15": r"untagged#InMessage#ScrapeRequest<AnnounceRequest"},
+      edits=[(WP+"incoming/mod.rs", "pub enum InMessage {\n    AnnounceRequest(AnnounceRequest),\n    ScrapeRequest(ScrapeRequest),\n}", "pub enum InMessage {\n    ScrapeRequest(ScrapeRequest),\n    AnnounceRequest(AnnounceRequest),\n}"),
+             (WP+"common.rs", "#[serde(rename_all = \"lowercase\")]\npub enum ScrapeAction {\n    Scrape,\n}", "#[serde(rename_all = \"lowercase\")]\npub enum ScrapeAction {\n    #[serde(alias = \"announce\")]\n    Scrape,\n}")]),
+ dict(id="C15-binary-frames-other-decoder", props=["C15"], expect={"C15": r"frames#InMessage"},
+      edits=[(WP+"incoming/mod.rs", "                ::simd_json::serde::from_slice(&mut bytes[..]).context(\"deserialize with serde\")", "                ::serde_json::from_slice(&bytes[..]).context(\"deserialize with serde\")")]),
+ dict(id="C15-encoder-buffer-20", props=["C15"], expect={"C15": r"encode20#buffer"},
+      edits=[(WP+"common.rs", "    let mut str_buffer = [0u8; 40];", "    let mut str_buffer = [0u8; 20];")]),
+]
